@@ -50,3 +50,15 @@ man = {
 }
 json.dump(man, open(os.path.join(V, "MANIFEST.json"), "w"), indent=1)
 print("MANIFEST.json: %d checks, %d unclaimed" % (len(checks), len(na)))
+
+# aggregate per-property findings into the committed known-findings file (documentation copy;
+# the checks read props/*/findings.txt and this file alike, never write either)
+import glob
+lines = ["# known findings and fixed defects, aggregated from props/*/findings.txt by tools/mkmanifest.py",
+         "# known: property=Cxx class=<class> witness=<case> <what fails>   -> check prints KNOWN-FINDING and exits 0",
+         "# fixed: property=Cxx <commit> <what failed>                        -> suppresses nothing"]
+for f in sorted(glob.glob(os.path.join(V, "props", "*", "findings.txt"))):
+    for l in open(f):
+        if l.strip() and not l.startswith("#"):
+            lines.append(l.rstrip())
+open(os.path.join(V, "known-findings.txt"), "w").write("\n".join(lines) + "\n")
